@@ -266,6 +266,56 @@ func runC13(c *Ctx) {
 	c13Blanks(c)
 	c13Strings(c)
 	c13Escapes(c)
+	c13SourceOwner(c)
+}
+
+// R8 source-text-read-by-the-lexer-only: a token carries a tag, a position and a length, never the quote
+// that opened a literal (R3 string-token), so which quote was written can reach the parser or the
+// evaluator only by reading the program text itself. Every read of Lexer.src lies in the lexer.
+func c13SourceOwner(c *Ctx) {
+	p := c.P
+	c.note("R8 source-text-read-by-the-lexer-only: every access to the field Lexer.src is in NewLexer or a method of Lexer; the parser and the evaluator see the text of a token through GetString(token) only, so nothing after the lexer can tell a '…' literal from a \"…\" literal (tokens carry no quote: R3 string-token).")
+	for _, fn := range p.Funcs {
+		if !p.InLang(fn) {
+			continue
+		}
+		owner := shortName(fn) == "lang.NewLexer"
+		if r := fn.Signature.Recv(); r != nil {
+			T := r.Type()
+			if pt, ok := T.(*types.Pointer); ok {
+				T = pt.Elem()
+			}
+			owner = owner || isLangNamed(T, "Lexer")
+		}
+		for par := fn.Parent(); par != nil && !owner; par = par.Parent() {
+			if r := par.Signature.Recv(); r != nil {
+				T := r.Type()
+				if pt, ok := T.(*types.Pointer); ok {
+					T = pt.Elem()
+				}
+				owner = isLangNamed(T, "Lexer")
+			}
+		}
+		n := 0
+		allInstrs(fn, func(in ssa.Instruction) {
+			v, ok := in.(ssa.Value)
+			if !ok {
+				return
+			}
+			sf, isF := fieldOfAddr(v)
+			if !isF {
+				if fv, isFV := v.(*ssa.Field); isFV {
+					sf, isF = loadedField(fv)
+				}
+			}
+			if !isF || !sf.Is("Lexer", "src") {
+				return
+			}
+			n++
+			c.check(owner, "R8", fmt.Sprintf("source-text-read-by-the-lexer-only %s #%d", shortName(fn), n), p.InstrPos(in), "the program text is read by the lexer", "the program text is read outside the lexer: what surrounds a token (the quote that opened a literal, blanks, a sign) becomes visible behind the token stream, where `'x'` and `\"x\"` are one and the same token")
+		})
+	}
+	c.floor("R8", 8)
 }
 
 // R5 operator-token table (and R4's newline token, '$', quotes dispatch)
